@@ -228,6 +228,8 @@ type zzStep struct {
 	noContext bool
 	// namespace the desired resources are in ("" = cluster scoped)
 	namespace string
+	// namespaces: per desired resource, overriding namespace ("" = use namespace)
+	namespaces []string
 	// explicit metadata.name the function gives desired resource i ("" = none)
 	names []string
 	// emptyMessages: results carry no message text
@@ -315,13 +317,20 @@ func (r *zzRunner) RunFunction(_ context.Context, name string, req *fnv1.RunFunc
 	for i, want := range st.desired {
 		if want {
 			res := zzDesiredResource(zzResNames[i])
-			if st.namespace != "" {
-				md, _ := structpb.NewStruct(map[string]any{"namespace": st.namespace})
+			ns := st.namespace
+			if i < len(st.namespaces) && st.namespaces[i] != "" {
+				ns = st.namespaces[i]
+			}
+			if ns != "" {
+				md, _ := structpb.NewStruct(map[string]any{"namespace": ns})
 				res.Resource.Fields["metadata"] = structpb.NewStructValue(md)
 			}
 			if i < len(st.names) && st.names[i] != "" {
 				m := res.GetResource().AsMap()
 				m["metadata"] = map[string]any{"name": st.names[i]}
+				if ns != "" {
+					m["metadata"] = map[string]any{"name": st.names[i], "namespace": ns}
+				}
 				ns, err := structpb.NewStruct(m)
 				if err != nil {
 					panic(err)
